@@ -66,6 +66,12 @@ def path_trace(ctx, res):
     ctx.trace(res, "path", "Trace_Path.tla", "Trace_Path.cfg", n=4000 if ctx.quick else 60000, timeout_s=300 if ctx.quick else 1800)
 
 
+def xml_trace(ctx, res, ops):
+    """code -> spec for the XML codecs: sessions of setter calls and codec calls on random documents (up to ~40 elements),
+    recorded from the real package and validated against the integrated specification (Trace_Xml.tla)"""
+    ctx.trace(res, "xml", "Trace_Xml.tla", "Trace_Xml.cfg", n=3000 if ctx.quick else 40000, timeout_s=300 if ctx.quick else 1800, extra_args=["-ops", ops])
+
+
 def c13(ctx, res):
     t = "quick" if ctx.quick else "thorough"
     for name in ("xml", "json", "xmlh", "jsonh"):
@@ -108,6 +114,9 @@ def c01(ctx, res):
     # sessions of the integrated specification: every history of key-folding / prefix setters interleaved with decodes
     # (the decoder is a function of the registers at the time of the call: nothing is carried from one decode to the next)
     ctx.gen_replay(res, "mxj", "Mxj.tla", "Mxj_dec.cfg" if ctx.quick else "Mxj_dec_thorough.cfg", procs=8)
+    xml_trace(ctx, res, "dec")
+    # the repository's own test suite, observed: every NewMapXml call it makes (hook VerifOnDecode) against the decode specification
+    ctx.repo_tests_trace(res)
     res.assumptions += ["encoding/xml as tokenizer (namespace prefixes, entity and CDATA decoding)",
                         "domain notes of DESIGN C01: attribute names distinct after key folding, attribute prefix distinct from the key prefix, under keep-spaces inter-element white space contains no blanks, at most one non-blank text run per element",
                         "cast uses the default flags over the texts {7, 1, true}; the full cast chain is C14"]
@@ -117,6 +126,7 @@ def c02(ctx, res):
     t = "quick" if ctx.quick else "thorough"
     for fam in ("names", "attrs", "vals", "vals1"):
         ctx.gen_replay(res, "enc", "MC_C02.tla", "MC_C02_%s_%s.cfg" % (fam, t), procs=16)
+    xml_trace(ctx, res, "rt")
     res.assumptions += ["encoding/xml as the definition of well-formedness and as tokenizer of the indented output",
                         "indented output compared with the compact one up to white space that the decoder trims (under keep-spaces: tabs/newlines only; indent string is a tab)",
                         "the non-ASCII placeholder ~ of the specification's alphabet is substituted by a two-byte rune on the Go side"]
@@ -134,6 +144,7 @@ def c04(ctx, res):
     t = "quick" if ctx.quick else "thorough"
     for fam in ("order", "attrs", "extras"):
         ctx.gen_replay(res, "seq", "MC_C04.tla", "MC_C04_%s_%s.cfg" % (fam, t), procs=8)
+    xml_trace(ctx, res, "seq")
     res.assumptions += ["documents start with the root element (a leading declaration or comment is the documented NoRoot result, covered by C15)",
                         "domain: text first in its element, at most one comment / directive / processing instruction per element",
                         "encoding/xml RawToken as tokenizer of the indented outputs"]
